@@ -141,6 +141,9 @@ def parse_type(s):
         return Type("obj", s[4:])
     if s == "obj":
         return Type("obj", None)
+    if s.startswith("map[") and s.endswith("]"):
+        k, v = split_top(s[4:-1])
+        return Type("map", (parse_type(k), parse_type(v)))
     if s.startswith("dict[") and s.endswith("]"):
         k, v = split_top(s[5:-1])
         return Type("dict", (parse_type(k), parse_type(v)))
